@@ -112,7 +112,13 @@ def _hermite(draw):
     sign = draw(st.sampled_from([1.0, -1.0]))
     us = [draw(st.one_of(st.floats(0, 1), st.floats(-2, 3))) for _ in range(draw(st.integers(1, 6)))]
     dtype = draw(st.sampled_from(["float64", "float64", "float32", "longdouble"]))
-    return dict(part="hermite", shape=shape, coefs=coefs, t0=t0, L=sign * length, us=us, dtype=dtype)
+    ends = draw(st.sampled_from(["float", "float", "float", "float", "pyint", "npint"]))
+    if ends != "float":
+        # whole-numbered end points handed over as integers: CubicHermiteInterp(0, 2, ...)
+        t0 = float(draw(st.integers(-10, 10)))
+        length = float(draw(st.sampled_from([1, 2, 3, 7, 16])))
+        dtype = "float64"
+    return dict(part="hermite", shape=shape, coefs=coefs, t0=t0, L=sign * length, us=us, dtype=dtype, ends=ends)
 
 
 def parts(tier):
@@ -220,7 +226,12 @@ def _check_hermite(case):
     viols = []
     sig = "{}:{}".format(case["dtype"], "rev" if case["L"] < 0 else "fwd")
     try:
-        H = CubicHermiteInterp(t0, t1, p0, p1, m0, m1)
+        if case.get("ends", "float") == "pyint":
+            H = CubicHermiteInterp(int(t0), int(t1), p0, p1, m0, m1)
+        elif case.get("ends", "float") == "npint":
+            H = CubicHermiteInterp(np.int64(t0), np.int64(t1), p0, p1, m0, m1)
+        else:
+            H = CubicHermiteInterp(t0, t1, p0, p1, m0, m1)
         for name, got, want in [("value@t0", H(t0), p0), ("value@t1", H(t1), p1), ("slope@t0", H.grad(t0), m0), ("slope@t1", H.grad(t1), m1)]:
             if np.shape(got) != shape or not np.array_equal(np.asarray(got), np.asarray(want)):
                 viols.append(V("hermite_ends", "{}: got {} want {} (t0={}, t1={})".format(name, np.asarray(got).tolist(), np.asarray(want).tolist(), float(t0), float(t1)), sig + name))
@@ -245,7 +256,7 @@ def _check_hermite(case):
                     float(ut), errg, tolg, float(t0), float(L)), sig))
     except Exception as e:
         viols.append(V("hermite_raises", "CubicHermiteInterp raised {!r}".format(e), exc_sig(e)))
-    labels = ["hermite:" + case["dtype"], "hermite:reversed" if case["L"] < 0 else "hermite:forward",
+    labels = ["hermite:" + case["dtype"], "hermite:ends_" + case.get("ends", "float"), "hermite:reversed" if case["L"] < 0 else "hermite:forward",
               "hermite:array" if shape else "hermite:scalar"]
     if any(u < 0 or u > 1 for u in case["us"]):
         labels.append("hermite:outside_query")
